@@ -58,7 +58,7 @@ class Twin:
                 v = types.SimpleNamespace(**binding)
                 try:
                     pre = c.requires(v)
-                    pre_ok = all(bool(t) for _, t in pre)
+                    pre_ok = all(bool(it[1]) for it in pre)
                 except Exception as ex:   # precondition not even evaluable (shape broken)
                     pre_ok = False
                 if not pre_ok:
@@ -76,7 +76,8 @@ class Twin:
                 except Exception as ex:
                     import traceback
                     posts = [("evaluable(%s)" % traceback.format_exc()[-300:], False)]
-                for name, t in posts:
+                for it in posts:
+                    name, t = it[0], it[1]
                     key = qualname + "/post/" + name
                     twin.hits[key] = twin.hits.get(key, 0) + 1
                     if not bool(t):
